@@ -88,7 +88,7 @@ pub fn classes() -> &'static Vec<LexClass> {
                 });
             }
         }
-        for b in ["\"0101\"", "\"0\"", "\"0_1\"", "\"1111_0000\""] {
+        for b in ["\"0101\"", "\"0\"", "\"0_1\"", "\"1111_0000\"", "\"0_1_0\"", "\"1010_0101_1111\"", "\"1_1_1_1\"", "'0_1_0'", "'1010'"] {
             v.push(lc(&format!("bits:{b}"), b, "BIT_STRING"));
         }
         for s in ["\"abc\"", "\"a\\\"b\"", "'sq'", "\"stdgates.inc\"", "\"x y/z.qasm\"", "\"\"", "\"//\"", "\"/* x\"", "\"a'b\"", "'a\"b'", "\"01a\"", "\"0 1\""] {
